@@ -35,7 +35,9 @@ Record cobs := {
   co_out : oout;
   co_state : state; co_sid : string; co_local : nat; co_remote : nat;
   co_closed : bool;         (* the client closed its connection *)
-  co_est : bool             (* Established() *)
+  co_est : bool;            (* Established() *)
+  co_client : option bool   (* when run: the high-level Client, whose transport factory plays this script on every
+                               connection, published a channel (Establish returned nil within its deadline) *)
 }.
 Record ccase := { q_conf : cdesc; q_script : list sin; q_obs : cobs }.
 Definition case := ccase.
@@ -47,7 +49,9 @@ Definition project (r : result) : cobs :=
      co_out := match out with CRet s => ORet (vs_state s) | CErr => OErr | CBlocked => OBlocked | CPanic => OPanic end;
      co_state := uc_state c; co_sid := uc_sid c; co_local := uc_local c; co_remote := uc_remote c;
      co_closed := existsb (fun e => match e with UClosed => true | _ => false end) t;
-     co_est := state_eqb (uc_state c) SEstablished && uc_conn c |}.
+     co_est := state_eqb (uc_state c) SEstablished && uc_conn c;
+     (* Client.buildChannel: a channel is published only if EstablishSession returned an established session *)
+     co_client := Some (match out with CRet s => state_eqb (vs_state s) SEstablished | _ => false end) |}.
 Definition model_obs (c : ccase) : cobs := project (cestablish c_repaired (conf_of (q_conf c)) (q_script c)).
 
 (* ---- equality ---- *)
@@ -95,6 +99,11 @@ Definition cobs_eqb (a b : cobs) : bool :=
   | OBlocked => true     (* a waiting client is released by the harness; its final fields are not compared *)
   | _ => state_eqb (co_state a) (co_state b) && String.eqb (co_sid a) (co_sid b) && Nat.eqb (co_local a) (co_local b) &&
          Nat.eqb (co_remote a) (co_remote b) && Bool.eqb (co_closed a) (co_closed b) && Bool.eqb (co_est a) (co_est b)
+  end &&
+  match co_client a, co_client b with
+  | None, _ => true
+  | Some x, Some y => Bool.eqb x y
+  | Some _, None => false
   end.
 
 (* ---- the property on an observation ---- *)
@@ -145,6 +154,11 @@ Definition check (c : ccase) : bool :=
        | Some (VSes s) => if terminal (vs_state s) then co_closed ob else true
        | _ => true
        end)
+  end &&
+  (* the high-level client publishes a channel only for a session the server established *)
+  match co_client ob with
+  | Some true => oout_eqb (co_out ob) (ORet SEstablished)
+  | _ => true
   end.
 
 Definition mismatches (cs : list ccase) : list nat := bad_indices (fun c => cobs_eqb (q_obs c) (model_obs c)) cs.
